@@ -171,11 +171,12 @@ def prepare(verbose=False):
             raise
         finally:
             shutil.rmtree(SCRATCH, ignore_errors=True)
-        # evict all but the 4 newest builds
+        # evict all but the newest builds (4; more when several checks of different trees run side by side: VERIF_KEEP_BUILDS)
+        keep = max(2, int(os.environ.get('VERIF_KEEP_BUILDS', '4')))
         builds = sorted((d for d in os.listdir(CACHE) if d.startswith('b-')),
                         key=lambda d: os.path.getmtime(os.path.join(CACHE, d, 'ok'))
                         if os.path.exists(os.path.join(CACHE, d, 'ok')) else 0)
-        for d in builds[:-4]:
+        for d in builds[:-keep]:
             shutil.rmtree(os.path.join(CACHE, d), ignore_errors=True)
         if verbose:
             print('prepared %s in %.1fs' % (out, time.time() - t0), file=sys.stderr)
